@@ -8,9 +8,31 @@ import (
 
 func init() { components["deque"] = runDeque }
 
+// The history is run on Deque[int] or, with cfg "inst" = "any", on Deque[any] in which the value 0 is the nil
+// interface (a deque must treat a nil element like any other element).
 func runDeque(c *Case) *Obs {
-	var d deque.Deque[int]
-	var its []iterator.Iterator[int]
+	if inst, _ := c.Cfg["inst"].(string); inst == "any" {
+		return runDequeT[any](c, func(v int) any {
+			if v == 0 {
+				return nil
+			}
+			return v
+		}, func(x any) int {
+			if x == nil {
+				return 0
+			}
+			if v, ok := x.(int); ok {
+				return v
+			}
+			return -987654321
+		})
+	}
+	return runDequeT[int](c, func(v int) int { return v }, func(x int) int { return x })
+}
+
+func runDequeT[T any](c *Case, mk func(int) T, un func(T) int) *Obs {
+	var d deque.Deque[T]
+	var its []iterator.Iterator[T]
 	o := &Obs{}
 	for _, op := range c.Ops {
 		name := op[0].(string)
@@ -18,23 +40,23 @@ func runDeque(c *Case) *Obs {
 		p, _ := protect(func() {
 			switch name {
 			case "pushfront":
-				d.PushFront(num(op[1]))
+				d.PushFront(mk(num(op[1])))
 				res = []any{"unit"}
 			case "pushback":
-				d.PushBack(num(op[1]))
+				d.PushBack(mk(num(op[1])))
 				res = []any{"unit"}
 			case "popfront":
-				res = []any{"val", d.PopFront()}
+				res = []any{"val", un(d.PopFront())}
 			case "popback":
-				res = []any{"val", d.PopBack()}
+				res = []any{"val", un(d.PopBack())}
 			case "front":
-				res = []any{"val", d.Front()}
+				res = []any{"val", un(d.Front())}
 			case "back":
-				res = []any{"val", d.Back()}
+				res = []any{"val", un(d.Back())}
 			case "item":
-				res = []any{"val", d.Item(num(op[1]))}
+				res = []any{"val", un(d.Item(num(op[1])))}
 			case "set":
-				d.Set(num(op[1]), num(op[2]))
+				d.Set(num(op[1]), mk(num(op[2])))
 				res = []any{"unit"}
 			case "len":
 				res = []any{"int", d.Len()}
@@ -64,7 +86,7 @@ func runDeque(c *Case) *Obs {
 						res = []any{"bad"}
 						return
 					}
-					l = append(l, x)
+					l = append(l, un(x))
 				}
 				res = []any{"list", l}
 			case "iternew":
@@ -78,7 +100,7 @@ func runDeque(c *Case) *Obs {
 				}
 				x, ok := its[j].Next()
 				if ok {
-					res = []any{"val", x}
+					res = []any{"val", un(x)}
 				} else {
 					res = []any{"end"}
 				}
@@ -91,7 +113,12 @@ func runDeque(c *Case) *Obs {
 		}
 		o.Obs = append(o.Obs, res)
 		isNil, capacity, front, back, _ := d.VerifState()
-		o.Raw = append(o.Raw, []any{isNil, capacity, front, back, d.VerifSlots()})
+		raw := d.VerifSlots()
+		slots := make([]int, len(raw))
+		for i, x := range raw {
+			slots[i] = un(x)
+		}
+		o.Raw = append(o.Raw, []any{isNil, capacity, front, back, slots})
 	}
 	return o
 }
